@@ -57,6 +57,28 @@ def gen_case(rnd):
     return flags, cache, transport, ops, cfgs, rnd.random() < 0.3        # reload by SIGHUP instead of /-/reload
 
 
+def gen_hostile_case(rnd):
+    """C02 against the binary: streams of hostile lines (grammar-aware mutations, raw bytes, invalid UTF-8, reserved tag keys) with
+    well-formed lines in between and after, under every way main() can be wired for the mapping cache (none = --statsd.cache-size=0,
+    LRU, random replacement) and for the parsers; the process stays up and the scrape is the model's."""
+    import gen_line as GL
+    ops = [GM.load_op((None, []))] if rnd.random() < 0.5 else []
+    cfgs = [(None, [])] if ops else []
+    n = rnd.randint(4, 20)
+    for k in range(n):
+        if rnd.random() < 0.6:
+            ln = GL.bound_rates(GL.hostile_line(rnd))
+        else:
+            ln = b"ok%d:%d|%s" % (k % 5, k, rnd.choice([b"c", b"g", b"ms"]))
+        low = ln.lower()
+        if b"\n" in ln or b"\r" in ln or len(ln) > 1000 or not ln or any(low.startswith(p_) or low[:1] in b"#,[" and p_ in low for p_ in (b"go_", b"go.", b"process", b"promhttp", b"statsd")):
+            continue
+        ops.append(PE.I(ln))
+    ops.append(PE.I(b"after.hostile:1|c"))
+    ops.append("G")
+    return rnd.randrange(16), rnd.choice([("none", 0), ("none", 0), ("lru", 1000), ("rr", 2)]), rnd.choice(["tcp", "udp", "unixgram"]), ops, cfgs, False
+
+
 def gen_reload_case(rnd):
     """reload-heavy histories: 3-5 reloads (valid ones that change defaults and rules, invalid ones that must change
     nothing), each followed by mapped and unmapped lines of every type and a scrape"""
@@ -95,11 +117,66 @@ def gen_order_case(rnd):
     return 15, ("none", 0), rnd.choice(["udp", "udp", "udp", "unixgram", "tcp"]), model_ops, [(None, [])], False, e2e_ops
 
 
+def gen_longrun_case(rnd):
+    """long uptime in one process: tens of thousands of events on the same few series, thousands of distinct series and
+    names, and dozens of reloads in between - whatever the binary counts, numbers or caches along the way, the scrape at
+    the end is the model's"""
+    def cfg(k):
+        return (None, [GM.rule(b"lr.c.*", b"lr_c", help=b"r0", labels=[(b"key", b"$1")]),
+                       GM.rule(b"lr.t.*", b"lr_t", help=b"r1", labels=[(b"key", b"$1")], observer_type=b"histogram"),
+                       GM.rule(b"lr.pad.v%d" % (k % 2), b"lr_pad", help=b"r2")])
+    hot = rnd.choice([20000, 33000, 66000])
+    nser = rnd.choice([1100, 2100, 4200])
+    nreload = rnd.choice([17, 33, 65])
+    lines = []
+    for i in range(hot):
+        # integer observations of type h: their sum is exact in every grouping (a scrape that lands between two observations
+        # makes the client library add the halves of the sum in another order; with fractions the last bits would differ)
+        lines.append(b"lr.c.hot:1|c" if i % 3 else (b"lr.t.hot:%d|h" % (i % 7)))
+    for i in range(nser):
+        lines.append(b"lr.c.s%d:2|c" % i)
+        if i % 2 == 0:
+            lines.append(b"name%d:%d|g" % (i, i))
+    rnd.shuffle(lines)
+    chunk = max(1, len(lines) // nreload)
+    cfgs, model_ops, e2e_ops = [], [], []
+    for k in range(0, len(lines), chunk):
+        c = cfg(k // chunk)
+        cfgs.append(c)
+        model_ops.append(GM.load_op(c)); e2e_ops.append(GM.load_op(c))
+        part = lines[k:k + chunk]
+        model_ops += [PE.I(l) for l in part]
+        # several writes per stretch so that no line is longer than the listener's buffer and packets stay moderate
+        for j in range(0, len(part), 400):
+            e2e_ops.append("P " + vf.hexs(b"\n".join(part[j:j + 400])))
+    model_ops.append("G"); e2e_ops.append("G")
+    return 15, rnd.choice([("none", 0), ("lru", 1000), ("rr", 1000)]), "tcp", model_ops, cfgs, rnd.random() < 0.3, e2e_ops
+
+
+_IPV6 = None
+
+
+def have_ipv6():
+    """is there an IPv6 loopback to send from?"""
+    global _IPV6
+    if _IPV6 is None:
+        import socket
+        try:
+            s_ = socket.socket(socket.AF_INET6, socket.SOCK_DGRAM)
+            s_.bind(("::1", 0))
+            s_.close()
+            _IPV6 = True
+        except OSError:
+            _IPV6 = False
+    return _IPV6
+
+
 def gen_big_datagram_case(rnd):
     """one datagram at the size limits: 65507 bytes (the largest UDP/IPv4 payload) over UDP or unixgram, 65508-65535 bytes over
     unixgram only; every line of it must be parsed exactly once"""
-    transport = rnd.choice(["udp", "unixgram", "unixgram"])
-    size = 65507 if transport == "udp" else rnd.choice([65507, 65508, 65520, 65535])
+    transport = rnd.choice(["udp", "unixgram", "unixgram"] + (["udp6", "udp6"] if have_ipv6() else []))
+    # the largest payloads: 65507 over UDP/IPv4, 65527 over UDP/IPv6, 65535 over unixgram
+    size = 65507 if transport == "udp" else rnd.choice([65507, 65508, 65512, 65527]) if transport == "udp6" else rnd.choice([65507, 65508, 65520, 65535])
     lines = []
     total = 0
     k = 0
@@ -255,7 +332,7 @@ def compare_case(case, obs, model, ticks=None):
             if gi["tel"] != gm["tel"]:
                 return (k, "the binary's own counters (events, actions, errors, conflicts, metrics) differ from the predicted ones", repr(gi["tel"]), repr(gm["tel"]))
             want = dict(lines=nlines, loaded=loaded, reload_ok=nok, reload_fail=nfail,
-                        tcp=(1 if transport == "tcp" and nlines else 0), udp=(npk if transport == "udp" else 0),
+                        tcp=(1 if transport == "tcp" and nlines else 0), udp=(npk if transport in ("udp", "udp6") else 0),
                         unixgram=(npk if transport == "unixgram" else 0))
             serr = w.pop("serr", "-")
             got_serr = {} if serr == "-" else {vf.unhex(x.rsplit(":", 1)[0]).decode(): int(x.rsplit(":", 1)[1]) for x in serr.split(",")}
@@ -571,3 +648,51 @@ def run_tcp_pauses(rep, pid, seed, pauses):
                                how="statsd_exporter --statsd.listen-tcp; the first part of the stream, the pause, the rest, then the connection is closed"))
     rep.extra["tcp_pause_search_ms"] = list(pauses)
     return bad
+
+
+def run_tcp_concurrent(rep, pid, tier, seed):
+    """C18 end to end: many TCP connections at once, each with its own lines in random segments; some send an over-long line
+    half-way (that connection is closed, and only that one).  Per connection the listener model says how many lines arrive."""
+    ok, out = build_binary()
+    if not ok:
+        return
+    rnd = random.Random(seed * 77 + 3)
+    scen = [(40, 30, 7), (rnd.choice([200, 300]), 8, 0)] if tier == "quick" else \
+           [(40, 30, 7), (300, 8, 0), (600, 6, 5), (100, 200, 3), (1000, 3, 0), (50, 1000, 9)]
+    cases = ["CT %d %d %d %d" % (n, k, ev, rnd.randrange(1000)) for n, k, ev in scen]
+    obs = run_e2e(pid, cases, par=2, tag="tcp_concurrent")
+    d = vf.tmpdir(pid)
+    for (n, k, ev), c, o in zip(scen, cases, obs):
+        rep.count(n)
+        o = o[0]
+        streams = []
+        for i in range(n):
+            p = b""
+            for j in range(k):
+                if ev > 0 and i % ev == 0 and j == k // 2:
+                    p += b"z" * 5000 + b"\n"
+                p += b"ct%d:1|c\n" % i
+            streams.append(p)
+        # the model, once per shape of stream (offender / not)
+        shapes = [streams[0]] + ([streams[1]] if ev and n > 1 else [])
+        vf.write_lines(f"{d}/tcp_conc.cases", ["T %s 1 0" % vf.hexs(x) for x in shapes])
+        ms = [dict(y.split("=", 1) for y in m.split()) for m in vf.run_model("listener", f"{d}/tcp_conc.cases")]
+        def pred(i):
+            m = ms[0] if (not ev or i % ev == 0) else ms[1]
+            return int(m["L"]), int(m["toolong"])
+        want_per = [pred(i)[0] for i in range(n)]
+        want = dict(lines=sum(want_per), toolong=sum(pred(i)[1] for i in range(n)), conns=n, errors=0)
+        if not o.startswith("CT lines="):
+            rep.violation("end to end scenario with concurrent TCP connections could not be run", dict(case=c, observed=o), no_input=True); continue
+        f = dict(y.split("=", 1) for y in o.split()[1:])
+        got = dict(lines=int(f["lines"]), toolong=int(f["toolong"]), conns=int(f["conns"]), errors=int(f["errors"]))
+        per = [int(x) for x in f["per"].split(",")]
+        if ev:
+            rep.nontrivial(("tcp-concurrent", c))
+        if got != want or per != want_per:
+            bad = [(i, per[i], want_per[i]) for i in range(n) if per[i] != want_per[i]][:10]
+            rep.violation("end to end: with many TCP connections at once, lines are lost, doubled or attributed wrongly, or an over-long line on one connection affects another",
+                          dict(connections=n, lines_per_connection=k, every_kth_connection_sends_5000_byte_line=ev, observed=got, predicted=want,
+                               connections_that_differ=[dict(connection=i, lines_arrived=a, predicted=b) for i, a, b in bad],
+                               how="statsd_exporter --statsd.listen-tcp; connection i writes k lines 'ct<i>:1|c' in random segments of 1-40 bytes; offenders insert one 5000-byte line half-way"))
+    rep.extra["e2e_tcp_concurrent_scenarios"] = scen
